@@ -354,11 +354,14 @@ def run_power(ctx) -> RuleResult:
             if isinstance(stmt, ast.Assign) and isinstance(stmt.targets[0], ast.Name):
                 acc = stmt.targets[0].id
         init = step.vars.get(acc) if acc else None
-        ok = init is not None and "numpy.ones(" in _txt(init) and "[(0,)]" in _txt(init).replace(" ", "").replace("[(0,)]", "[(0,)]")
+        ok = init is not None and "numpy.ones(" in _txt(init) and "[(0,)]" in _txt(init).replace(" ", "")
+        if ok:
+            ones = [c for c in calls_in(init) if (ctx.dotted(module, c.func) or "") == "numpy.ones"]
+            ok = bool(ones) and ones[0].args and _txt(ones[0].args[0]).endswith(".shape") and ("π" + params[0]) in _txt(ones[0].args[0])
         result.ob("the product starts from the constant polynomial one", bool(ok), where, _txt(init)[:80] if init is not None else "")
         if not ok:
             result.add(Finding("R-POWER", module, "power", step.node,
-                               "the running product is not initialised with the constant one", construct="power: init"))
+                               "the running product is not initialised with the constant one of the base's shape (x ** 0 must have the shape of x)", construct="power: init"))
         body_calls = [c for s in step.node.body for c in calls_in(s) if (ctx.dotted(module, c.func) or "").endswith(".multiply")]
         ok = len(body_calls) == 1 and len(body_calls[0].args) >= 2 and U(body_calls[0].args[0]) == acc and params[0] in U(step.expand(body_calls[0].args[1]))
         result.ob("each step multiplies the running product by the base", ok, where, "")
@@ -453,4 +456,114 @@ def run_prodaxes(ctx) -> RuleResult:
     if n == 0:
         raise AnalysisError("prod: axis-sequence branch not recognised")
     result.floor = 1
+    return result
+
+
+def run_registrar(ctx) -> RuleResult:
+    result = RuleResult(
+        "R-REGISTRAR",
+        "the registration decorators of numpoly/dispatch.py enter *every* target into every table they "
+        "are responsible for (assignments inside the loop over the targets) and return the function unchanged",
+    )
+    module = ctx.repo.module("numpoly.dispatch")
+    wants = {
+        "implements_function": {"FUNCTION_COLLECTION"},
+        "implements_ufunc": {"UFUNC_COLLECTION"},
+        "implements": {"FUNCTION_COLLECTION", "UFUNC_COLLECTION"},
+    }
+    for name, tables in wants.items():
+        func = ctx.repo.function(module.name, name)
+        vararg = func.args.vararg.arg if func.args.vararg else None
+        inner = [n for n in func.body if isinstance(n, ast.FunctionDef)]
+        if vararg is None or len(inner) != 1:
+            raise AnalysisError(f"dispatch.{name}: decorator shape not recognised")
+        deco = inner[0]
+        fparam = deco.args.args[0].arg
+        loops = [n for n in ast.walk(deco) if isinstance(n, ast.For) and isinstance(n.iter, ast.Name) and n.iter.id == vararg]
+        written = set()
+        for loop in loops:
+            target_name = loop.target.id if isinstance(loop.target, ast.Name) else None
+            for node in ast.walk(loop):
+                if isinstance(node, ast.Assign) and isinstance(node.targets[0], ast.Subscript):
+                    sub = node.targets[0]
+                    if isinstance(sub.value, ast.Name) and isinstance(sub.slice, ast.Name) and sub.slice.id == target_name \
+                            and isinstance(node.value, ast.Name) and node.value.id == fparam:
+                        written.add(sub.value.id)
+        outside = [
+            node for node in ast.walk(deco)
+            if isinstance(node, ast.Assign) and isinstance(node.targets[0], ast.Subscript)
+            and isinstance(node.targets[0].value, ast.Name) and node.targets[0].value.id in tables
+            and not any(node in list(ast.walk(loop)) for loop in loops)
+        ]
+        ok = tables <= written and not outside
+        result.ob(f"{name}: every target is entered into {sorted(tables)}", ok, module.loc(func),
+                  f"inside loop: {sorted(written)}; outside loop: {len(outside)}")
+        if not ok:
+            missing = sorted(tables - written)
+            result.add(Finding(
+                "R-REGISTRAR", module, name, outside[0] if outside else deco,
+                f"{name}: " + (f"table(s) {missing} are not filled inside the loop over the targets" if missing else "")
+                + (f"; an assignment to {U(outside[0].targets[0])} sits outside the loop, so only the last target "
+                   f"of a multi-target registration is entered" if outside else ""),
+                construct=f"{name}: registration loop"))
+        rets = [n for n in ast.walk(deco) if isinstance(n, ast.Return) and _owner_func(n) is deco]
+        ok = bool(rets) and all(isinstance(r.value, ast.Name) and r.value.id == fparam for r in rets)
+        result.ob(f"{name}: the decorated function is returned unchanged", ok, module.loc(deco), "")
+        if not ok:
+            result.add(Finding("R-REGISTRAR", module, name, deco,
+                               f"{name} does not return the decorated function itself: numpoly.<f> and the registry "
+                               f"entry would be different objects", construct=f"{name}: return"))
+    result.floor = 6
+    return result
+
+
+def _owner_func(node):
+    cur = getattr(node, "_parent", None)
+    while cur is not None and not isinstance(cur, (ast.FunctionDef, ast.AsyncFunctionDef)):
+        cur = getattr(cur, "_parent", None)
+    return cur
+
+
+def run_outer(ctx) -> RuleResult:
+    result = RuleResult(
+        "R-OUTER",
+        "outer flattens both operands (numpy.outer semantics) before the broadcasting product: the "
+        "first becomes a column, the second a row",
+    )
+    modname = "numpoly.array_function.outer"
+    module = ctx.repo.module(modname)
+    func = ctx.repo.function(modname, "outer")
+    params = [a.arg for a in func.args.args]
+    n = 0
+    for path in ctx.paths(module, func):
+        last = path[-1]
+        if last.kind != "return":
+            continue
+        value = last.expand(last.node.value)
+        if not (isinstance(value, ast.Call) and (ctx.dotted(module, value.func) or "").endswith(".multiply") and len(value.args) >= 2):
+            raise AnalysisError("outer: does not return multiply(a, b)")
+        n += 1
+        for idx, (arg, pname, col) in enumerate(((value.args[0], params[0], True), (value.args[1], params[1], False))):
+            text = _txt(arg)
+            flat = ".ravel()" in text or ".flatten()" in text or ".reshape(-1" in text
+            owner = ("π" + pname) in text and ("π" + params[1 - idx]) not in text.split(".ravel()")[-1]
+            result.ob(f"outer: operand {idx} is flattened", flat, module.loc(last.orig), text[-60:])
+            if not flat:
+                result.add(Finding("R-OUTER", module, "outer", last.node,
+                                   f"operand '{pname}' is not flattened before the product ({text[-60:]}): for inputs of "
+                                   f"two or more dimensions the result is not numpy.outer's (size_a, size_b) layout",
+                                   construct=f"outer: operand {pname}"))
+            sl = arg.slice if isinstance(arg, ast.Subscript) else None
+            ok = isinstance(sl, ast.Tuple) and len(sl.elts) == 2 and (
+                (col and isinstance(sl.elts[0], ast.Slice) and "newaxis" in _txt(sl.elts[1]))
+                or ((not col) and "newaxis" in _txt(sl.elts[0]) and isinstance(sl.elts[1], ast.Slice))
+            )
+            result.ob(f"outer: operand {idx} becomes a {'column' if col else 'row'}", bool(ok), module.loc(last.orig), "")
+            if flat and not ok:
+                result.add(Finding("R-OUTER", module, "outer", last.node,
+                                   f"operand '{pname}' is not reshaped to a {'column [:, newaxis]' if col else 'row [newaxis, :]'}",
+                                   construct=f"outer: axis of {pname}"))
+    if n == 0:
+        raise AnalysisError("outer: no return path")
+    result.floor = 4
     return result
